@@ -230,6 +230,19 @@ func (w *World) Scan(faults []Fault) *Line {
 		}
 		sort.Strings(line.Lookups[g])
 	}
+	// ghost: the node size this controller lifetime observed last (first listed node of a scan whose node list succeeded)
+	for _, g := range w.Gorder {
+		listed := false
+		for _, c := range calls {
+			if c.Op == "list_nodes" && c.G == g && c.Ok {
+				listed = true
+			}
+		}
+		if gs := line.Pre.Groups[g]; listed && len(gs.Order) > 0 && !line.Crash {
+			v := gs.ViewOf()[gs.Order[0]]
+			w.Seen[g] = [2]int{v.Cpu, v.Mem}
+		}
+	}
 	// ghost: a cloud-accepted scale-up
 	for _, g := range w.Gorder {
 		if acceptedScaleUp(calls, g) {
